@@ -226,6 +226,17 @@ def r3(rep, prog):
                     if is_self_attr(t) and t.attr in src_attrs:
                         direct = True
             stored = direct
+            # names that hold (parts of) the map's result, through any chain of temporaries
+            grew = True
+            while grew:
+                grew = False
+                for s in walk_own(f.node):
+                    if isinstance(s, ast.Assign) and s.lineno > c.lineno and any(isinstance(x, ast.Name) and x.id in res_names for x in ast.walk(s.value)):
+                        for t in s.targets:
+                            for x in ([t] if isinstance(t, ast.Name) else (t.elts if isinstance(t, ast.Tuple) else [])):
+                                if isinstance(x, ast.Name) and x.id not in res_names:
+                                    res_names.add(x.id)
+                                    grew = True
             for s in walk_own(f.node):
                 if isinstance(s, ast.Assign) and s.lineno > c.lineno and any(is_self_attr(t) and t.attr in src_attrs for t in s.targets):
                     if any(isinstance(x, ast.Name) and x.id in res_names for x in ast.walk(s.value)):
